@@ -245,9 +245,10 @@ class Woven:
         self.removed_tokens = 0
         self.notes = ''
         self.body_open_lines = []   # 0-based line offsets (in text) of the `{` opening each fn body
+        self.hint_items = []        # (ordinal, first_line, last_line) 0-based line offsets of statement-level proof hints
 
 
-def weave(e_src, e0_src, p_src):
+def weave(e_src, e0_src, p_src, drop_hints=None):
     e_toks, e0_toks, p_toks = lex(e_src), lex(e0_src), lex(p_src)
     if not e_toks and not e0_toks:
         w = Woven()
@@ -355,11 +356,72 @@ def weave(e_src, e0_src, p_src):
             out[pos] = (out[pos][0], out[pos][1], ' ')
             out.insert(pos, ('#[verifier::exec_allows_no_decreases_clause]', 'annot', sep))
         w.notes = 'new loop(s) without contract in %d function(s)' % len(ins_at)
+    # statement-level proof hints of the template: `proof { ... }` blocks and `assert ... ;` statements made of annotation
+    # tokens only.  They are optional for soundness (a proof script with fewer hints proves less, never more), so the
+    # caller may ask for some of them to be left out (`drop_hints`, by ordinal) when a hint no longer fits changed code.
+    items = []            # (first index in out, last index in out)
+    i = 0
+    n_out = len(out)
+    while i < n_out:
+        t, tag, _ = out[i]
+        if tag == 'annot' and t in ('proof', 'assert'):
+            nxt = i + 1
+            while nxt < n_out and out[nxt][1] != 'annot':
+                nxt += 1
+            prv = i - 1
+            while prv >= 0 and out[prv][1] != 'annot':
+                prv -= 1
+            ok_start = (t == 'proof' and nxt < n_out and out[nxt][0] == '{' and not (prv >= 0 and out[prv][0] in ('pub', 'broadcast', 'open', 'closed'))) \
+                or (t == 'assert' and nxt < n_out and out[nxt][0] in ('(', 'forall'))
+            if ok_start:
+                depth = 0
+                j = i + 1
+                end = None
+                saw_open = False
+                while j < n_out:
+                    tj, tagj, _ = out[j]
+                    if tagj == 'annot':
+                        if tj in '([{' and len(tj) == 1:
+                            depth += 1
+                            saw_open = True
+                        elif tj in ')]}' and len(tj) == 1:
+                            depth -= 1
+                            if depth < 0:
+                                break
+                            if depth == 0 and t == 'proof' and tj == '}':
+                                end = j
+                                break
+                        elif tj == ';' and depth == 0 and t == 'assert':
+                            end = j
+                            break
+                    j += 1
+                if end is not None and saw_open:
+                    items.append((i, end))
+                    i = end + 1
+                    continue
+        i += 1
+    if drop_hints:
+        dead = set()
+        for k, (a, b) in enumerate(items):
+            if k in drop_hints:
+                for x in range(a, b + 1):
+                    if out[x][1] == 'annot':
+                        dead.add(x)
+        if dead:
+            # keep the line structure: a dropped token leaves only the newlines of its separator behind
+            out = [(('' if x in dead else t), tag, (('\n' * sep.count('\n')) if x in dead else sep)) for x, (t, tag, sep) in enumerate(out)]
     # render + line tags
     pieces = []
     line = 0
     tags = [set()]
+    prev_text = ''
     for text, tag, sep in out:
+        # a transplanted token keeps the separator it had in the template; when the token before it changed (e.g. `!`
+        # deleted between `if` and `offsets`) two words may end up glued together: keep them apart
+        if not sep and prev_text and text and (prev_text[-1].isalnum() or prev_text[-1] == '_') and (text[0].isalnum() or text[0] == '_'):
+            sep = ' '
+        if text:
+            prev_text = text
         for ch in sep:
             if ch == '\n':
                 line += 1
@@ -385,6 +447,7 @@ def weave(e_src, e0_src, p_src):
         ln += sep.count('\n')
         tok_line.append(ln)
         ln += text.count('\n')
+    w.hint_items = [(k, tok_line[a], tok_line[b] + out[b][0].count('\n')) for k, (a, b) in enumerate(items)]
     code_idx = [i for i, (t, tag, _) in enumerate(out) if tag != 'annot']
     k = 0
     n = len(code_idx)
